@@ -29,6 +29,9 @@
 #include <set>
 #include <list>
 #include <algorithm>
+#ifdef ADAPTAGRAMS_VERIF
+#include <cstdio>
+#endif
 
 #include "libavoid/router.h"
 #include "libavoid/geomtypes.h"
@@ -2594,6 +2597,50 @@ void ImproveOrthogonalRoutes::execute(void)
     TIMER_STOP(m_router);
 }
 
+#ifdef ADAPTAGRAMS_VERIF
+// Verification hook H1 (add-only, compiled out without ADAPTAGRAMS_VERIF): when
+// verif_nudge_log is non-null every nudging region handled by one VPSC problem
+// is dumped as text.  The hook only reads state.
+FILE *verif_nudge_log = nullptr;
+
+static long verifVarIndex(const Variables& vs, const Variable *v)
+{
+    for (size_t i = 0; i < vs.size(); ++i)
+    {
+        if (vs[i] == v)
+        {
+            return (long) i;
+        }
+    }
+    return -1;
+}
+
+static void verifDumpConstraints(FILE *fp, const char *tag,
+        const Variables& vs, const Constraints& cs)
+{
+    fprintf(fp, "%s %u", tag, (unsigned) cs.size());
+    for (size_t i = 0; i < cs.size(); ++i)
+    {
+        fprintf(fp, " %ld %ld %a %d", verifVarIndex(vs, cs[i]->left),
+                verifVarIndex(vs, cs[i]->right), cs[i]->gap,
+                (int) cs[i]->equality);
+    }
+    fprintf(fp, "\n");
+}
+
+static void verifDumpRanges(FILE *fp, const char *tag,
+        const std::list<std::pair<size_t, size_t> >& ranges)
+{
+    fprintf(fp, "%s %u", tag, (unsigned) ranges.size());
+    for (std::list<std::pair<size_t, size_t> >::const_iterator it =
+            ranges.begin(); it != ranges.end(); ++it)
+    {
+        fprintf(fp, " %u %u", (unsigned) it->first, (unsigned) it->second);
+    }
+    fprintf(fp, "\n");
+}
+#endif // ADAPTAGRAMS_VERIF
+
 void ImproveOrthogonalRoutes::nudgeOrthogonalRoutes(size_t dimension,
        bool justUnifying)
 {
@@ -2859,6 +2906,96 @@ void ImproveOrthogonalRoutes::nudgeOrthogonalRoutes(size_t dimension,
             fprintf(stderr, "-vs[%d]=%f\n", i, vs[i]->desiredPosition);
         }
 #endif
+#ifdef ADAPTAGRAMS_VERIF
+        if (verif_nudge_log)
+        {
+            FILE *vfp = verif_nudge_log;
+            size_t vAltDim = (dimension + 1) % 2;
+            fprintf(vfp, "REGION %u %d %a %d %d %u %a\n", (unsigned) dimension,
+                    (int) justUnifying, baseSepDist, (int) nudgeFinalSegments,
+                    (int) nudgeSharedPathsWithCommonEnd,
+                    (unsigned) currentRegion.size(),
+                    m_router->routingParameter(fixedSharedPathPenalty));
+            size_t vSegN = 0;
+            for (ShiftSegmentList::iterator vIt = currentRegion.begin();
+                    vIt != currentRegion.end(); ++vIt, ++vSegN)
+            {
+                NudgingShiftSegment *vSeg =
+                        static_cast<NudgingShiftSegment *> (*vIt);
+                fprintf(vfp, "SEG %u %u %a %d %d %d %d %d %d %a %a %ld %a %a %d "
+                        "%a %a %u\n", (unsigned) vSegN, vSeg->connRef->id(),
+                        vSeg->lowPoint()[dimension], (int) vSeg->fixed,
+                        (int) vSeg->finalSegment, (int) vSeg->endsInShape,
+                        (int) (vSeg->checkpoints.size() > 0),
+                        (int) vSeg->singleConnectedSegment,
+                        (int) vSeg->zigzag(), vSeg->minSpaceLimit,
+                        vSeg->maxSpaceLimit, verifVarIndex(vs, vSeg->variable),
+                        vSeg->variable->desiredPosition,
+                        vSeg->variable->weight, vSeg->variable->id,
+                        vSeg->lowPoint()[vAltDim], vSeg->highPoint()[vAltDim],
+                        (unsigned) vSeg->indexes.size());
+            }
+            // The four relations the generator consults, for every ordered
+            // pair (curr, prev) with prev earlier in processing order.
+            size_t vI = 0;
+            for (ShiftSegmentList::iterator vIt = currentRegion.begin();
+                    vIt != currentRegion.end(); ++vIt, ++vI)
+            {
+                NudgingShiftSegment *vCurr =
+                        static_cast<NudgingShiftSegment *> (*vIt);
+                size_t vJ = 0;
+                for (ShiftSegmentList::iterator vIt2 = currentRegion.begin();
+                        vIt2 != vIt; ++vIt2, ++vJ)
+                {
+                    NudgingShiftSegment *vPrev =
+                            static_cast<NudgingShiftSegment *> (*vIt2);
+                    bool vShared = (vCurr->connRef->id() !=
+                            vPrev->connRef->id()) &&
+                        (m_shared_path_connectors_with_common_endpoints.count(
+                            UnsignedPair(vCurr->connRef->id(),
+                                vPrev->connRef->id())) > 0);
+                    fprintf(vfp, "REL %u %u %d %d %d %d\n", (unsigned) vI,
+                            (unsigned) vJ,
+                            (int) vCurr->overlapsWith(vPrev, dimension),
+                            (int) vCurr->shouldAlignWith(vPrev, dimension),
+                            (int) vCurr->canAlignWith(vPrev, dimension),
+                            (int) vShared);
+                }
+            }
+            fprintf(vfp, "VARS %u", (unsigned) vs.size());
+            for (size_t vK = 0; vK < vs.size(); ++vK)
+            {
+                fprintf(vfp, " %d %a %a", vs[vK]->id, vs[vK]->desiredPosition,
+                        vs[vK]->weight);
+            }
+            fprintf(vfp, "\n");
+            verifDumpConstraints(vfp, "CONS", vs, cs);
+            fprintf(vfp, "GAPCS %u", (unsigned) gapcs.size());
+            for (size_t vK = 0; vK < gapcs.size(); ++vK)
+            {
+                long vPos = -1;
+                for (size_t vL = 0; vL < cs.size(); ++vL)
+                {
+                    if (cs[vL] == gapcs[vK])
+                    {
+                        vPos = (long) vL;
+                    }
+                }
+                fprintf(vfp, " %ld", vPos);
+            }
+            fprintf(vfp, "\n");
+            fprintf(vfp, "POT %u", (unsigned) potentialConstraints.size());
+            for (std::list<PotentialSegmentConstraint>::iterator vP =
+                    potentialConstraints.begin();
+                    vP != potentialConstraints.end(); ++vP)
+            {
+                fprintf(vfp, " %u %u", (unsigned) vP->index1,
+                        (unsigned) vP->index2);
+            }
+            fprintf(vfp, "\n");
+            fflush(vfp);
+        }
+#endif // ADAPTAGRAMS_VERIF
         // Repeatedly try solving this.  There are two cases:
         //  -  When Unifying, we greedily place as many free segments as
         //     possible at the same positions, that way they have more
@@ -2876,6 +3013,25 @@ void ImproveOrthogonalRoutes::nudgeOrthogonalRoutes(size_t dimension,
         {
             IncSolver f(vs, cs);
             f.solve();
+#ifdef ADAPTAGRAMS_VERIF
+            if (verif_nudge_log)
+            {
+                FILE *vfp = verif_nudge_log;
+                fprintf(vfp, "SOLVE %a %u", sepDist, (unsigned) vs.size());
+                for (size_t vK = 0; vK < vs.size(); ++vK)
+                {
+                    fprintf(vfp, " %a", vs[vK]->finalPosition);
+                }
+                fprintf(vfp, "\n");
+                fprintf(vfp, "UNSAT %u", (unsigned) cs.size());
+                for (size_t vK = 0; vK < cs.size(); ++vK)
+                {
+                    fprintf(vfp, " %d", (int) cs[vK]->unsatisfiable);
+                }
+                fprintf(vfp, "\n");
+                fflush(vfp);
+            }
+#endif // ADAPTAGRAMS_VERIF
 
             // Determine if the problem was satisfied.
             satisfied = true;
@@ -2959,6 +3115,15 @@ void ImproveOrthogonalRoutes::nudgeOrthogonalRoutes(size_t dimension,
                 fprintf(stderr,"unsatisfied\n");
             }
 #endif
+#ifdef ADAPTAGRAMS_VERIF
+            if (verif_nudge_log)
+            {
+                FILE *vfp = verif_nudge_log;
+                fprintf(vfp, "SCAN %d\n", (int) satisfied);
+                verifDumpRanges(vfp, "RANGES", unsatisfiedRanges);
+                fflush(vfp);
+            }
+#endif // ADAPTAGRAMS_VERIF
 
             if (justUnifying)
             {
@@ -3087,6 +3252,17 @@ void ImproveOrthogonalRoutes::nudgeOrthogonalRoutes(size_t dimension,
                     }
                 }
             }
+#ifdef ADAPTAGRAMS_VERIF
+            if (verif_nudge_log)
+            {
+                FILE *vfp = verif_nudge_log;
+                fprintf(vfp, "STEP %a %d %d\n", sepDist, (int) satisfied,
+                        (int) justAddedConstraint);
+                verifDumpConstraints(vfp, "CONS", vs, cs);
+                verifDumpRanges(vfp, "RANGES", unsatisfiedRanges);
+                fflush(vfp);
+            }
+#endif // ADAPTAGRAMS_VERIF
         }
         while (!satisfied && (sepDist > 0.0001));
 
@@ -3104,6 +3280,23 @@ void ImproveOrthogonalRoutes::nudgeOrthogonalRoutes(size_t dimension,
                 segment->updatePositionsFromSolver(justUnifying);
             }
         }
+#ifdef ADAPTAGRAMS_VERIF
+        if (verif_nudge_log)
+        {
+            FILE *vfp = verif_nudge_log;
+            fprintf(vfp, "END %d %a %u", (int) satisfied, sepDist,
+                    (unsigned) currentRegion.size());
+            for (ShiftSegmentList::iterator vIt = currentRegion.begin();
+                    vIt != currentRegion.end(); ++vIt)
+            {
+                NudgingShiftSegment *vSeg =
+                        static_cast<NudgingShiftSegment *> (*vIt);
+                fprintf(vfp, " %a", vSeg->lowPoint()[dimension]);
+            }
+            fprintf(vfp, "\n");
+            fflush(vfp);
+        }
+#endif // ADAPTAGRAMS_VERIF
 #ifdef NUDGE_DEBUG
         for(unsigned i=0;i<vs.size();i++) {
             fprintf(stderr, "+vs[%d]=%f\n",i,vs[i]->finalPosition);
